@@ -551,7 +551,7 @@ const SYM_NONE: [bool; 5] = [false; 5];
 const SYM_D: [bool; 5] = [false, false, true, false, false];
 const SYM_W: [bool; 5] = [false, true, false, false, false];
 
-// @harness props=C06 tier=thorough mem=8 t=5400 fn="HashMapTreeZone::lookup,lookup_addrs,lookup_all,lookup_base,lookup_impl,RrsetList::lookup"
+// @harness props=C06 tier=thorough mem=8 t=3400 fn="HashMapTreeZone::lookup,lookup_addrs,lookup_all,lookup_base,lookup_impl,RrsetList::lookup"
 //   bound="zone of the family header, d.z. in {NS (cut), A, empty} symbolic, rest fixed (apex full, *.z. A, f.e.z. A, *.e.z. A); query g.d.z.; all three lookups; search_below_cuts, unchecked, query type in {A,NS,CNAME,SOA,TXT} symbolic; unwind 8"
 //   sym="1 content selector (3 zones), 2 option flags, type selector" stubs="eq_ignore_ascii_case" cbmc="--max-field-sensitivity-array-size 1024" kani="--no-assertion-reach-checks"
 #[kani::proof]
@@ -564,7 +564,7 @@ fn c06_query_below_cut() {
     kani::cover!(s.d == 2 && w.want == Want::Node { data: GDZ, synth: false }, "found below an empty non-terminal");
 }
 
-// @harness props=C06 tier=quick mem=6 t=2400 fn="HashMapTreeZone::lookup,lookup_base,lookup_impl,RrsetList::lookup"
+// @harness props=C06 tier=quick mem=4 t=1800 fn="HashMapTreeZone::lookup,lookup_base,lookup_impl,RrsetList::lookup"
 //   bound="same zone, d.z. symbolic; query d.z. itself (the cut is the name asked for); single-type lookup; flags and type symbolic; unwind 8"
 //   sym="1 content selector (3 zones), 2 option flags, type selector" stubs="eq_ignore_ascii_case" cbmc="--max-field-sensitivity-array-size 1024" kani="--no-assertion-reach-checks"
 #[kani::proof]
@@ -577,7 +577,7 @@ fn c06_query_at_cut() {
     kani::cover!(s.d == 2 && !f.has[DZ][w.ti], "empty non-terminal: no records");
 }
 
-// @harness props=C06 tier=thorough mem=8 t=3400 fn="HashMapTreeZone::lookup,lookup_base,lookup_impl,RrsetList::lookup"
+// @harness props=C06 tier=thorough mem=9 t=2400 fn="HashMapTreeZone::lookup,lookup_base,lookup_impl,RrsetList::lookup"
 //   bound="same zone, *.z. present with content in {A, CNAME, TXT} symbolic, rest fixed; query k.z. (no such node: closest encloser is the apex); single-type lookup (with all three lookups the harness ran out of 20 GB); flags and type symbolic; unwind 8"
 //   sym="1 content selector (3 zones), 2 option flags, type selector" stubs="eq_ignore_ascii_case" cbmc="--max-field-sensitivity-array-size 1024" kani="--no-assertion-reach-checks"
 #[kani::proof]
@@ -590,7 +590,7 @@ fn c06_query_wildcard_at_apex() {
     kani::cover!(s.w == 1 && w.ti == T_TXT, "wildcard without the type: no records, with source of synthesis");
 }
 
-// @harness props=C06 tier=thorough mem=6 t=2400 fn="HashMapTreeZone::lookup,lookup_addrs,lookup_all,lookup_base,lookup_impl"
+// @harness props=C06 tier=thorough mem=4 t=1800 fn="HashMapTreeZone::lookup,lookup_addrs,lookup_all,lookup_base,lookup_impl"
 //   bound="same zone without *.z. (fixed); queries k.z. (all three lookups) and *.z. (the wildcard name itself, absent; single-type lookup): name error; flags and type symbolic; unwind 8"
 //   sym="2 option flags, type selector, per query" stubs="eq_ignore_ascii_case" cbmc="--max-field-sensitivity-array-size 1024" kani="--no-assertion-reach-checks"
 #[kani::proof]
@@ -604,7 +604,7 @@ fn c06_query_no_wildcard_at_apex() {
     kani::cover!(w.below_cuts && !w.checked, "both options set");
 }
 
-// @harness props=C06 tier=thorough mem=8 t=3400 fn="HashMapTreeZone::lookup,lookup_base,lookup_impl,RrsetList::lookup"
+// @harness props=C06 tier=thorough mem=13 t=3400 fn="HashMapTreeZone::lookup,lookup_base,lookup_impl,RrsetList::lookup"
 //   bound="same zone; query k.e.z. (closest encloser is the empty non-terminal e.z.: only *.e.z. may be used, never *.z.) with *.e.z. present (and *.z. content symbolic) and with *.e.z. absent (name error although *.z. exists); single-type lookup; flags and type symbolic; unwind 8"
 //   sym="1 content selector (3 zones), 2 option flags, type selector, per query" stubs="eq_ignore_ascii_case" cbmc="--max-field-sensitivity-array-size 1024" kani="--no-assertion-reach-checks"
 #[kani::proof]
@@ -617,7 +617,7 @@ fn c06_query_wildcard_below_ent() {
     assert!(w2.want == Want::NxDomain, "[C06] the reference says name error: the closest encloser e.z. has no wildcard");
 }
 
-// @harness props=C06 tier=thorough mem=8 t=3400 fn="HashMapTreeZone::lookup,lookup_all,lookup_base,lookup_impl,RrsetList::lookup"
+// @harness props=C06 tier=thorough mem=4 t=1500 fn="HashMapTreeZone::lookup,lookup_all,lookup_base,lookup_impl,RrsetList::lookup"
 //   bound="same zone, apex content in {SOA+NS+A, A} symbolic; query z. (the apex: its NS is not a cut); lookup + lookup_all; flags and type symbolic; unwind 8"
 //   sym="1 content selector (2 zones), 2 option flags, type selector" stubs="eq_ignore_ascii_case" cbmc="--max-field-sensitivity-array-size 1024" kani="--no-assertion-reach-checks"
 #[kani::proof]
@@ -629,7 +629,7 @@ fn c06_query_apex() {
     kani::cover!(s.apex == 1 && w.ti == T_SOA, "no SOA at the apex: no records");
 }
 
-// @harness props=C06 tier=quick mem=8 t=3400 fn="HashMapTreeZone::lookup,lookup_addrs,lookup_all,lookup_base"
+// @harness props=C06 tier=quick mem=6 t=2400 fn="HashMapTreeZone::lookup,lookup_addrs,lookup_all,lookup_base"
 //   bound="fixed zone; checked lookups (all three) of y. and of the root (names outside the zone), and of h.g.d.z. with d.z. symbolic (below glue: referral, or name error - no wildcard applies); flags and type symbolic; unwind 8"
 //   sym="option flags, type selector; 1 content selector for h.g.d.z." stubs="eq_ignore_ascii_case" cbmc="--max-field-sensitivity-array-size 1024" kani="--no-assertion-reach-checks"
 #[kani::proof]
@@ -684,7 +684,7 @@ fn check_rrset_c20(r: &SingleRrset, node: usize, t: usize) {
     assert!(it.next().is_none(), "[C20] a rejected add adds no RDATA");
 }
 
-// @harness props=C20 tier=quick mem=6 t=2400 fn="HashMapTreeZone::add (acceptance decision),Name::eq_or_subdomain_of"
+// @harness props=C20 tier=quick mem=3 t=1200 fn="HashMapTreeZone::add (acceptance decision),Name::eq_or_subdomain_of"
 //   bound="fixed 7-node zone z. (class IN); add of an A record with any TTL and a class other than the zone's (CH, HS, 254): owners y., the root, k.y. (outside) are rejected NotInZone, owners Z. (apex, upper case), f.e.z., k.z. (inside) are rejected ClassMismatch; after the six rejected adds the A lookups at z. and f.e.z. are unchanged; unwind 8"
 //   sym="ttl:u32 per add" stubs="eq_ignore_ascii_case" cbmc="--max-field-sensitivity-array-size 1024" kani="--no-assertion-reach-checks"
 #[kani::proof]
@@ -727,7 +727,7 @@ fn c20_add_rejections() {
     observe_fixed_zone(&zone, &f);
 }
 
-// @harness props=C20 tier=thorough mem=4 t=2400 fn="HashMapTreeZone::add,RrsetList::add,RdataSetOwned::insert,HashMapTreeZone::lookup"
+// @harness props=C20 tier=thorough mem=3 t=1200 fn="HashMapTreeZone::add,RrsetList::add,RdataSetOwned::insert,HashMapTreeZone::lookup"
 //   bound="fixed 7-node zone; one add at the apex (owner Z., class IN) of type A (RRset exists, TTL rule applies) with any TTL and any 2-octet RDATA, then one add of type TXT (new RRset) with any TTL; lookups of A and TXT at the apex afterwards; unwind 8"
 //   sym="ttl:u32 x2, rdata:[u8;2]" stubs="eq_ignore_ascii_case" cbmc="--max-field-sensitivity-array-size 1024" kani="--no-assertion-reach-checks"
 #[kani::proof]
